@@ -62,8 +62,8 @@ type Case struct {
 	DumpBatch   int     `json:"dump_batch"`
 	ShardSize   int     `json:"shard_size"`
 	Scrub       bool    `json:"scrub"` // -scrub full with a fixed salt
-	// Pick selects the states at which the quick tier injects database errors into the RESUME
-	// (the thorough tier does it at every state): state index ≡ Pick (mod 5).
+	// Pick selects the states at which the quick tier injects faults into the RESUME as well
+	// (the thorough tier does it at every state): state index ≡ 5*Pick (mod 25).
 	Pick int `json:"pick"`
 }
 
